@@ -62,6 +62,9 @@ func (e *ex) coq() string {
 func (e *ex) text(r *Rng, enum string, names []string, ref bool) string {
 	switch e.kind {
 	case "num":
+		if e.z < 0 {
+			return fmt.Sprintf("(%d)", e.z)
+		}
 		return fmt.Sprint(e.z)
 	case "str":
 		return strconv.Quote(e.s)
@@ -123,8 +126,15 @@ func genEx(r *Rng, d int, nPrev int, numericPrev []int, allowSpecial bool) *ex {
 	}
 	op := r.Intn(len(binOps))
 	if op == 5 {
-		// ** : literal operands only (the operand pairs of DESIGN 7-B are replayed separately)
-		return &ex{kind: "bin", op: 5, a: &ex{kind: "num", z: int64(r.Range(0, 12))}, b: &ex{kind: "num", z: int64(r.Range(0, 10))}}
+		// ** : small literal operands, or a special operand (NaN / Infinity / reference) as base or exponent
+		a, b := &ex{kind: "num", z: int64(r.Range(-2, 12))}, &ex{kind: "num", z: int64(r.Range(0, 10))}
+		if r.Chance(30) {
+			b = genEx(r, 0, nPrev, numericPrev, true)
+		}
+		if r.Chance(15) {
+			a = genEx(r, 0, nPrev, numericPrev, true)
+		}
+		return &ex{kind: "bin", op: 5, a: a, b: b}
 	}
 	return &ex{kind: "bin", op: op, a: genEx(r, d-1, nPrev, numericPrev, allowSpecial), b: genEx(r, d-1, nPrev, numericPrev, allowSpecial)}
 }
@@ -515,14 +525,16 @@ $p("merge", M.A, M.B, M.C, M.D, M[M.C], W.In.Y, W.y, W.In[W.In.X]);
 // Deterministic replays of defects of the pinned tree that this check has
 // confirmed (recorded in known_findings.d/C06.json).
 func knownDefectReplays(st *Stats) {
-	// B (DESIGN section 7): compile-time ** through math.Pow
-	tsB := "enum E { A = 1 ** (0/0) }\n$p(\"A\", E.A);\n"
-	out, e := compileTS(rtCase{ts: tsB})
-	if e == "" {
-		res, err := RunNodeScripts([]string{out, "$p(\"A\", 1 ** (0/0));\n"}, 3000)
+	// B (DESIGN section 7; fixed in /repo by 9e1822e, must pass now): compile-time ** with NaN / infinite exponents
+	tsB := "enum E { A = 1 ** (0/0), B = (-1) ** Infinity, C = 1 ** -Infinity, D = NaN ** 0, F = 2 ** NaN }\n$p(\"pow\", E.A, E.B, E.C, E.D, E.F);\n"
+	if out, e := compileTS(rtCase{ts: tsB}); e == "" {
+		res, err := RunNodeScripts([]string{out, "$p(\"pow\", 1 ** (0/0), (-1) ** Infinity, 1 ** -Infinity, NaN ** 0, 2 ** NaN);\n"}, 3000)
+		st.Note("corpus-B", tsB, true)
 		if err == nil && !res[0].Same(res[1]) {
-			st.Fail("known-B-enum-pow-special-folds-to-1", map[string]string{"scenario": "known-B", "typescript": tsB, "esbuild_output": out}, res[0].String(), res[1].String())
+			st.Fail("enum-pow-special-cases-differ-from-ecmascript", map[string]string{"typescript": tsB, "esbuild_output": out}, res[0].String(), res[1].String())
 		}
+	} else {
+		st.Fail("enum-pow-special-cases-differ-from-ecmascript", map[string]string{"typescript": tsB}, e, "accepted")
 	}
 	// I: an assignment to a variable exported by a sibling block of a merged namespace is not rewritten to a property
 	tsI := "namespace N { export let b = 1; }\nnamespace N { b = b + 1; b++; }\n$p(\"b\", N.b, typeof b);\n"
